@@ -33,7 +33,11 @@ LEVEL = "exploration"
 
 FIELDS = ["context", "outputs", "status", "task"]
 VARIANTS = [(f, path, retry) for f in FIELDS for path in ("plain", "txn") for retry in (False, True)] + \
-           [("context", "plain-phase", False), ("context", "txn-phase", False), ("outputs", "plain-phase", True), ("task", "plain-phase", False)]
+           [("context", "plain-phase", False), ("context", "txn-phase", False), ("outputs", "plain-phase", True), ("task", "plain-phase", False)] + \
+           [(f, "txn-fault", retry) for f in ("context", "task") for retry in (False, True)]
+# "txn-fault": the first transactional attempt is rolled back by a fault after txn.store_stage() succeeded (a failing
+# later write / "database is locked" at commit), then the SAME object is saved again without re-reading - what
+# TransactionHelper.execute_atomic's lock-contention retry does.
 
 
 def api_world() -> World:
@@ -72,6 +76,21 @@ def writer_program(i: int, field: str, path: str, retry: bool, results: dict[int
                 stg.tasks[i % 2].task_exception_details = {f"t{i}": i}
                 stg.context[f"w{i}"] = i
             phase = stg.status.name if field != "status" else "NOT_STARTED"
+            if path == "txn-fault" and attempts == 1:
+                import sqlite3 as _sq
+
+                try:
+                    with w.store.transaction(w.queue) as txn:
+                        txn.store_stage(stg)
+                        txn.push_message(CancelRegion(execution_id="W1", region=f"writer{i}"))
+                        raise _sq.OperationalError("database is locked")  # injected: the transaction rolls back
+                except _sq.OperationalError:
+                    pass
+                except ConcurrencyError:
+                    if retry:
+                        continue
+                    results[i] = {"result": "conflict", "read_versions": read_versions, "attempts": attempts}
+                    return
             try:
                 if path.startswith("txn"):
                     with w.store.transaction(w.queue) as txn:
